@@ -8,7 +8,14 @@
    (harness/rec.c) and feeds them to the observers of HtpObs.tla, so TLC checks the observer clauses on every
    reachable state of the bounded model.  Two modes:
      TraceMode = FALSE : model checking; consumption ranges over 0..avail (avail <= MaxAvail abstract units)
-     TraceMode = TRUE  : trace validation (drift detection); consumption is read from the SE record ahead        *)
+     TraceMode = TRUE  : trace validation (drift detection); consumption is read from the SE record ahead
+   and, orthogonally, MaxCalls < 0 : liveness mode for HtpDriver.tla (no call counter, observers off).
+   Map of the module: events for the observers; micro-ops (Cb, Cbs = zero or more callbacks of a decompressor, Set / SetTx, Fin = finalize,
+   RecvFin = finalize a raw data receiver, Yield, Use = consumption that follows the body callbacks, Tp = trace point, Ret, EndCall);
+   ReqOutcomes / ResOutcomes (one disjunct per branch of each state function); Run (micro-programs up to the next stop); the actions
+   DataEnter / CloseMark / CloseEnter / StepBegin / CbStep / CbsDone / RetStep / EndCallStep; the trace binding T* and TSpec; views and
+   invariants.  Deliberate heuristics and repaired defects are named where they occur (FixD4, the 407 branch, sticky STOP / ERROR, the
+   interim 100 branch, hard-limit failure at DATA_BUFFER, request decompression in trace mode only).                                       *)
 EXTENDS Integers, Sequences, FiniteSets, TLC, Json, IOUtils
 
 CONSTANTS MaxTx, MaxCalls, MaxAvail, AutoDestroy, CbFail, FixD4, TraceMode,
